@@ -165,8 +165,9 @@ class C02(Spec):
                     if out != "throw":
                         bad.append(("union-accepts-seed-mismatch", out[:60], i))
                     continue
-                if out == "throw":
-                    bad.append(("union-update-throws", l, i))
+                if out != "ok":
+                    if out == "throw":
+                        bad.append(("union-update-throws", l, i))
                     continue
                 u["inputs"].append(s)
             elif op == "ureset":
@@ -175,7 +176,9 @@ class C02(Spec):
             elif op == "ures":
                 u = uni.get(int(w[1]))
                 if o is None:
-                    bad.append(("union-result-missing", out[:60], i)); continue
+                    if out != "bad-op":
+                        bad.append(("union-result-missing", out[:60], i))
+                    continue
                 obs[int(w[2])] = o
                 if u is None or o["ents"] is None:
                     continue
@@ -218,8 +221,8 @@ class C02(Spec):
                     if out != "throw":
                         bad.append(("intersection-accepts-seed-mismatch", out[:60], i))
                     continue
-                if out == "throw":
-                    if not mismatch:
+                if out != "ok":
+                    if out == "throw" and not mismatch:
                         bad.append(("intersection-update-throws", l, i))
                     continue
                 if not mismatch:
@@ -233,7 +236,9 @@ class C02(Spec):
                         bad.append(("intersection-result-before-update", out[:60], i))
                     continue
                 if o is None:
-                    bad.append(("intersection-result-missing", out[:60], i)); continue
+                    if out != "bad-op":
+                        bad.append(("intersection-result-missing", out[:60], i))
+                    continue
                 obs[int(w[2])] = o
                 if o["ents"] is None:
                     continue
@@ -257,13 +262,14 @@ class C02(Spec):
                         bad.append(("anotb-accepts-seed-mismatch", out[:60], i))
                     continue
                 if o is None:
-                    bad.append(("anotb-throws", out[:60], i)); continue
+                    if out != "bad-op":
+                        bad.append(("anotb-throws", out[:60], i))
+                    continue
                 obs[int(w[3])] = o
                 if shortcut:      # documented short-circuits: the result is A itself
                     theta, want, wempty = a["theta"], sorted(a["ents"]), a["empty"]
                 else:
-                    bt = MAXT if b["empty"] else b["theta"]
-                    theta = min(a["theta"], bt)
+                    theta = min(a["theta"], b["theta"])     # "minimum input theta": the thetas the operands report
                     bs = set(b["ents"])
                     want = sorted(x for x in a["ents"] if x < theta and x not in bs)
                     wempty = (not want and theta == MAXT)
